@@ -173,10 +173,28 @@ func TestC08(t *testing.T) {
 		} else {
 			c.Target = rapid.SampledFrom([]string{ld.ForFormat(kind), "auto", "png", "jpeg", "webp"}).Draw(rt, "target")
 		}
-		if rapid.Bool().Draw(rt, "fixed") {
+		switch rapid.IntRange(0, 3).Draw(rt, "schedkind") {
+		case 0:
 			c.Sizes = rapid.SampledFrom(fixed).Draw(rt, "fixedsize")
-		} else {
+		case 1:
 			c.Sizes = rapid.SliceOfN(rapid.IntRange(1, 9000), 1, 8).Draw(rt, "sizes")
+		default:
+			// reads that end at (or a few bytes around) a structure boundary of the file: one or two such
+			// splits, then the rest in one piece or in 4096-byte pieces
+			es := mut.Ends(m, len(data))
+			pos := 0
+			for k := rapid.IntRange(1, 2).Draw(rt, "nsplits"); k > 0; k-- {
+				e := rapid.SampledFrom(es).Draw(rt, "boundary") + rapid.IntRange(-2, 4).Draw(rt, "delta")
+				if e > pos {
+					c.Sizes = append(c.Sizes, e-pos)
+					pos = e
+				}
+			}
+			c.Sizes = append(c.Sizes, rapid.SampledFrom([]int{1 << 30, 4096, 65536}).Draw(rt, "rest"))
+			// the size list is cycled by the source: pad so that the split sizes are used once only
+			for k := 0; k < 64; k++ {
+				c.Sizes = append(c.Sizes, c.Sizes[len(c.Sizes)-1])
+			}
 		}
 		c.DataWithEOF = rapid.Bool().Draw(rt, "dataeof")
 		ev.Eval(1)
